@@ -540,7 +540,8 @@ theorem processEvent_histQ (hQ : RecClosed m Q) (h : Hooks) (htr : HooksTraceOK 
   · rename_i sel _
     generalize (decide (sel.length > 1)) = b
     have : ∀ (l : List Cand) (s : St), Q s.hist →
-        Q (l.foldl (fun s c => if s.err.isSome then s else if b && !(s.cfg.contains c.src) then s
+        Q (l.foldl (fun s c => if s.err.isSome then s else if finished s.status then s
+          else if b && !(s.cfg.contains c.src) then s
           else execute h fl m ev (planTransition m s.cfg s.hist c) s) s).hist := by
       intro l
       induction l with
@@ -553,7 +554,9 @@ theorem processEvent_histQ (hQ : RecClosed m Q) (h : Hooks) (htr : HooksTraceOK 
         · exact hs
         · split
           · exact hs
-          · exact execute_histQ hQ h htr fl ev _ s hs
+          · split
+            · exact hs
+            · exact execute_histQ hQ h htr fl ev _ s hs
     exact this sel s hs
 
 theorem transientLoop_histQ (hQ : RecClosed m Q) (h : Hooks) (htr : HooksTraceOK h) (fl : Flavor) (u : UEnv) :
